@@ -53,7 +53,7 @@ type c20Writer struct {
 
 func init() {
 	register(&Prop{ID: "C20", Run: c20Run,
-		Rule: "documents from the shared generator with empty containers / empty lists at every depth (PEmpty raised), lists of 0-7 and 10-13 items built by successive Append calls (so lengths 3, 5, 6, 7, 10-13 have spare capacity), obtained as freshly built, loaded via FromReader, FromMap, merged (both list strategies), cloned, sealed, as two-layer overlays whose upper layer is unrelated, a near copy of the lower one, or an addendum to it (below the same keys some lists overridden by 1-3 additional items, some scalars overridden), and as overlays of 3-5 layers generated together position by position (origin `layers`: below shared keys every layer independently holds nothing / null / a scalar / a list / a container, the containers several layers hold at one key generated together again, so the layers overlap and disagree in kind at every depth - null or leaf then container then container again, container then null then container, ... - with empty containers at every depth); read calls drawn from the whole read API with paths that exist, paths that do not, and list-index paths (flattened paths of the document with [i] groups, small out-of-range indexes, and indexes far out of range that no earlier round of the run has used), Merged with the default and the ListsMergeAppend option, plus ContainerBuilder.Merge(other, opts) with the document as receiver and as `other` (both strategies; other = unrelated / near copy / addendum). reads: fingerprint (reflection incl. unexported fields, nil-vs-empty maps, slice len/cap and the backing array between len and cap) before/after every call; every view handed out (merged view, layer snapshot, clone, merge result) is retained and must be unchanged after all later reads; for overlays the fingerprint is also taken per layer, and after all reads every layer's snapshot content must equal that of the same layer of an identically built overlay nobody has read. race: 16 goroutines x 3-8 random read calls on a fresh instance per round under `go build -race` (200 rounds quick, 5000 thorough); the concurrent readers are the first to read the instance and the first in the process to use the round's paths / child names - the single-threaded reference observations are computed only afterwards, on another fresh instance - so anything a read path initialises or memoises lazily (in the document or in package-level state) is initialised under concurrency. identity: one Merge call in seven merges the document (or a container inside it) with ITSELF (receiver and other are one object). size: every fiftieth reads case and every fortieth race round the document additionally holds a string leaf of 470 B ... 1 MiB + 30 B (the text FromReader loads / Serialize writes is just under, at, just over 512 B, 4 KiB, 64 KiB, 1 MiB; multi-byte characters every few bytes). failure first (every third reads case, every second race round): 1-3 serialisations of OTHER documents that fail part-way precede the reads / are performed after the 16 goroutines have been created and before they are released - a float leaf JSON cannot represent (NaN, +Inf, -Inf; put by the builder or loaded from YAML), a leaf whose own MarshalJSON / MarshalYAML reports an error (placed early, late or deep in the document), an io.Writer failing after 0 / 1 / a few / hundreds of bytes, through Container.Serialize or the single-layer OverlayDocument.Serialize, with both default encoders; in those cases every call sequence contains a Serialize of the document under test (both encoders), single-threaded observations must equal the ones an identically built instance gave before any serialisation had failed, and a failing Serialize leaves the fingerprint of its own document unchanged. Non-trivial: the document has at least one composite child. distinct = distinct canonical case JSON.",
+		Rule: "documents from the shared generator with empty containers / empty lists at every depth (PEmpty raised), lists of 0-7 and 10-13 items built by successive Append calls (so lengths 3, 5, 6, 7, 10-13 have spare capacity), one document in five with 1-3 COMPOSITE leaves (a leaf holding a []interface{} / map[string]interface{} / map[interface{}]interface{} value, nested in each other, put over an existing leaf or under a new key at any depth: a leaf may hold any Go value), obtained as freshly built, loaded via FromReader, FromMap, merged (both list strategies), cloned, sealed, as two-layer overlays whose upper layer is unrelated, a near copy of the lower one, or an addendum to it (below the same keys some lists overridden by 1-3 additional items, some scalars overridden), and as overlays of 3-5 layers generated together position by position (origin `layers`: below shared keys every layer independently holds nothing / null / a scalar / a list / a container, the containers several layers hold at one key generated together again, so the layers overlap and disagree in kind at every depth - null or leaf then container then container again, container then null then container, ... - with empty containers at every depth); the Search calls (container and overlay) pass a predicate with state of its own (it records every value it is shown in plain variables of the calling goroutine, the way callers collect matches - what it was shown is part of the observation); read calls drawn from the whole read API with paths that exist, paths that do not, and list-index paths (flattened paths of the document with [i] groups, small out-of-range indexes, and indexes far out of range that no earlier round of the run has used), Merged with the default and the ListsMergeAppend option, plus ContainerBuilder.Merge(other, opts) with the document as receiver and as `other` (both strategies; other = unrelated / near copy / addendum). reads: fingerprint (reflection incl. unexported fields, nil-vs-empty maps, slice len/cap and the backing array between len and cap) before/after every call; every view handed out (merged view, layer snapshot, clone, merge result) is retained and must be unchanged after all later reads; for overlays the fingerprint is also taken per layer, and after all reads every layer's snapshot content must equal that of the same layer of an identically built overlay nobody has read. race: 16 goroutines x 3-8 random read calls on a fresh instance per round under `go build -race` (200 rounds quick, 5000 thorough); the concurrent readers are the first to read the instance and the first in the process to use the round's paths / child names - the single-threaded reference observations are computed only afterwards, on another fresh instance - so anything a read path initialises or memoises lazily (in the document or in package-level state) is initialised under concurrency. identity: one Merge call in seven merges the document (or a container inside it) with ITSELF (receiver and other are one object). size: every fiftieth reads case and every fortieth race round the document additionally holds a string leaf of 470 B ... 1 MiB + 30 B (the text FromReader loads / Serialize writes is just under, at, just over 512 B, 4 KiB, 64 KiB, 1 MiB; multi-byte characters every few bytes). failure first (every third reads case, every second race round): 1-3 serialisations of OTHER documents that fail part-way precede the reads / are performed after the 16 goroutines have been created and before they are released - a float leaf JSON cannot represent (NaN, +Inf, -Inf; put by the builder or loaded from YAML), a leaf whose own MarshalJSON / MarshalYAML reports an error (placed early, late or deep in the document), an io.Writer failing after 0 / 1 / a few / hundreds of bytes, through Container.Serialize or the single-layer OverlayDocument.Serialize, with both default encoders; in those cases every call sequence contains a Serialize of the document under test (both encoders), single-threaded observations must equal the ones an identically built instance gave before any serialisation had failed, and a failing Serialize leaves the fingerprint of its own document unchanged. Non-trivial: the document has at least one composite child. distinct = distinct canonical case JSON.",
 		Assumptions: []string{"the race detector only observes the schedules that occur; the schedule quantifier is carried by the write-freedom theorem over the extracted effect table",
 			"effect extractor rules (syntactic points-to, freshness, allow-list of external calls, caller-supplied callbacks do not write) are trusted and validated dynamically here",
 			"Go memory model and runtime"}})
@@ -283,13 +283,110 @@ func c20GenStack(r *rand.Rand, g *DocGen, n, depth int) []W {
 func c20GenDocs(r *rand.Rand, g *DocGen, o string) (d1, d2 W, more []W) {
 	if o == "layers" {
 		st := c20GenStack(r, g, 3+r.Intn(3), 0)
+		if r.Intn(5) == 0 {
+			for i := range st {
+				if r.Intn(2) == 0 {
+					st[i] = c20WithComposite(r, st[i])
+				}
+			}
+		}
 		return st[0], st[1], st[2:]
 	}
 	d1 = g.Doc(r)
+	if r.Intn(5) == 0 {
+		d1 = c20WithComposite(r, d1)
+	}
 	if o == "merged" || o == "merged-append" || o == "overlay" {
 		d2 = c20Second(r, g, d1)
 	}
 	return
+}
+
+// c20Composites: values of COMPOSITE leaves (wire type "composite", c20lib.CompositeFromText): "for all documents" -
+// a leaf holds any Go value, and callers do put decoded fragments (a slice, a map, maps of the
+// map[interface{}]interface{} kind older YAML decoders produce, nested in each other) into a leaf as they are.
+// Reading such a document - conversion to plain values and serialisation in particular - must leave the value
+// alone like everything else.
+var c20Composites = []string{
+	`[1,2,3]`, `[]`, `["a","b"]`, `[null]`, `[[1],[2,[3]]]`, `{"k":"v"}`, `{"k":[1,2],"n":{"x":true}}`, `{}`,
+	`["a",{"k":"v"}]`, `[{"$if":{"a":1}}]`, `{"$if":{"a":1,"b":"x"}}`, `{"$if":{}}`, `{"$if":{"1":"one","b":[{"$if":{"c":true}}]}}`,
+	`[1,[{"$if":{"k":[{"$if":{"d":null}}]}}],"z"]`, `{"list":[{"$if":{"host":"h","port":80}},{"$if":{"host":"i"}}]}`,
+}
+
+// c20WithComposite puts 1-3 composite leaves into a copy of d: over an existing leaf, under a new key, at the top or
+// a few levels down (inside containers and lists).
+func c20WithComposite(r *rand.Rand, d W) W {
+	d = deepCopyW(d)
+	leaf := func() W { return map[string]any{"t": "composite", "v": pick(r, c20Composites)} }
+	for n := 1 + r.Intn(3); n > 0; n-- {
+		cur := d
+		for depth := 0; ; depth++ {
+			if l, ok := cur.([]any); ok {
+				if len(l) == 0 {
+					break
+				}
+				i := r.Intn(len(l))
+				if _, isLeaf := wireLeafT(l[i]); isLeaf || depth > 3 {
+					l[i] = leaf()
+					break
+				}
+				cur = l[i]
+				continue
+			}
+			c, ok := wireCont(cur)
+			if !ok {
+				break
+			}
+			ks := sortedKeys(c)
+			if len(ks) == 0 || r.Intn(3) == 0 {
+				c[pick(r, []string{"cv", "cw", "a", "zz"})] = leaf()
+				break
+			}
+			k := pick(r, ks)
+			if _, isLeaf := wireLeafT(c[k]); isLeaf || depth > 3 {
+				c[k] = leaf()
+				break
+			}
+			cur = c[k]
+		}
+	}
+	return d
+}
+
+// wireLeafT: the wire type of a leaf.
+func wireLeafT(w W) (string, bool) {
+	m, ok := w.(map[string]any)
+	if !ok {
+		return "", false
+	}
+	if _, isCont := m["m"]; isCont {
+		return "", false
+	}
+	t, ok := m["t"].(string)
+	return t, ok
+}
+
+// c20HasComposite: the document holds a composite leaf.
+func c20HasComposite(w W) bool {
+	switch x := w.(type) {
+	case []any:
+		for _, e := range x {
+			if c20HasComposite(e) {
+				return true
+			}
+		}
+	case map[string]any:
+		if c, ok := x["m"].(map[string]any); ok {
+			for _, e := range c {
+				if c20HasComposite(e) {
+					return true
+				}
+			}
+			return false
+		}
+		return x["t"] == "composite"
+	}
+	return false
 }
 
 // the calls drawn for an overlay: its read methods, Merged once per list strategy
@@ -732,6 +829,9 @@ func c20EvalReads(c *Ctx, p c20Reads) {
 		c.Nontrivial()
 	}
 	c.Dist("origin:" + p.Origin)
+	if c20HasComposite(p.D1) || c20HasComposite(p.D2) || c20HasComposite(p.More) {
+		c.Dist("reads:document-with-composite-leaf(slice / map value)")
+	}
 	if p.Pad > 0 {
 		c.Dist(fmt.Sprintf("reads:large-document(string leaf of %d bytes)", p.Pad))
 		p.D1 = c20lib.Padded(p.D1, p.Pad)
